@@ -100,7 +100,43 @@ class C03(Prop):
                    'healthy-world filter for (b): positive junction pressures in both engines, no junction cut off, no EPANET warning, both converge',
                    'rule timestep divides the hydraulic timestep; pattern and report steps are multiples of the hydraulic step (EPANET otherwise shortens its steps)']
 
+    def prv_zone(self, rng, tier):
+        """a pressure zone behind a PRV whose two ends lie at different elevations, with a tank in the zone that starts above the set head: the
+        tank pushes back and the valve closes; the zone's demand drains the tank below the set head and the valve has to regulate again.  The
+        supply head lies between (setting + downstream elevation) and (setting + upstream elevation), well clear of both."""
+        hyd = rng.pick([1800, 3600])
+        nsteps = rng.irange(8, 14)
+        e2 = rng.uni(2.0, 20.0, 2)
+        delta = rng.uni(8.0, 20.0, 2)
+        e1 = round(e2 + (delta if rng.chance(0.7) else -delta), 2)
+        sett = rng.uni(25.0, 45.0, 2)
+        hs = e2 + sett
+        h0 = round(hs + rng.uni(0.3, 0.7) * abs(delta) + (0.0 if e1 > e2 else 3.0), 2) if e1 > e2 else round(hs + rng.uni(3.0, 8.0), 2)
+        d2 = rng.uni(0.008, 0.02, 6)
+        diam = rng.pick([8.0, 10.0, 12.0])
+        lvl0 = rng.uni(1.5, 3.0, 2)
+        et = round(hs + rng.uni(0.4, 1.2) - lvl0, 2)      # tank head starts 0.4-1.2 m above the set head
+        scn = {'v': 1, 'profile': 'c03', 'patterns': {'P1': [1.0, 1.2, 0.9, 1.1]}, 'curves': {}, 'controls': [], 'leaks': [], 'faults': [],
+               'options': {'duration': int(hyd * nsteps), 'hyd_step': int(hyd), 'pattern_step': int(hyd * 2), 'report_step': int(hyd), 'rule_step': int(hyd),
+                           'start_clocktime': 0, 'pattern_start': 0, 'multiplier': 1.0, 'demand_model': 'DD', 'trials': 200,
+                           'accuracy': 1e-7, 'headerror': 1e-5, 'flowchange': 1e-7},
+               'nodes': [{'id': 'R1', 'type': 'R', 'head': h0, 'pattern': None},
+                         {'id': 'J1', 'type': 'J', 'elev': e1, 'demands': [[rng.uni(0.0005, 0.002, 6), None, None]]},
+                         {'id': 'J2', 'type': 'J', 'elev': e2, 'demands': [[d2, 'P1', None]]},
+                         {'id': 'T1', 'type': 'T', 'elev': et, 'init': lvl0, 'min': 0.0, 'max': round(lvl0 + 2.0, 2), 'diam': diam, 'overflow': False, 'vol_curve': None}],
+               'links': [{'id': 'p1', 'type': 'pipe', 'a': 'R1', 'b': 'J1', 'len': 100.0, 'diam': 0.5, 'rough': 130.0, 'minor': 0.0, 'status': 'OPEN', 'cv': False},
+                         {'id': 'v2', 'type': 'valve', 'a': 'J1', 'b': 'J2', 'vtype': 'PRV', 'diam': 0.3, 'minor': 0.0, 'status': 'ACTIVE', 'setting': sett},
+                         {'id': 'p3', 'type': 'pipe', 'a': 'J2', 'b': 'T1', 'len': 150.0, 'diam': 0.4, 'rough': 130.0, 'minor': 0.0, 'status': 'OPEN', 'cv': False}],
+               'meta': {'H0': h0, 'total_demand': d2 * 1.3}, 'run': {'backup': None, 'convergence_error': False, 'hw_approx': 'default', 'solver_options': {'MAXITER': 500}}}
+        us = list(UNITS)
+        rng.shuffle(us)
+        scn['units'] = us[:3 if tier == 'quick' else 10]
+        scn['zone'] = 'prv'
+        return scn
+
     def make(self, rng, tier):
+        if rng.chance(0.06):
+            return self.prv_zone(rng, tier)
         hyd = rng.pick([900, 1800, 3600, 3600, 7200])
         cfg = dict(hyd_steps=[hyd], steps=(4, 16), n_tanks=[(0, 3), (1, 5), (2, 1)], p_pdd=0.3, p_clock=0.3, nj=(2, 7), p_loop=0.5,
                    n_valves=[(0, 5), (1, 3)], p_dur_off=0.0, p_pump_source=0.3, p_cv=0.15, pump_points=[(1, 3), (3, 3)], p_report_all=0.0, p_report_mult=0.0,
@@ -272,6 +308,12 @@ class C03(Prop):
                 qf = np.abs(np.asarray(res_.link['flowrate'][pumps].values, dtype=float))
                 stp = np.asarray(res_.link['status'][pumps].values, dtype=float)
                 idle_rows |= set(int(i) for i in np.where(((qf < 1e-5) & (stp != 0)).any(axis=1))[0])
+            # a constant-power pump throttled to a small fraction of its design flow lifts P/(rho g q): hundreds or thousands of metres, and a
+            # relative change of the flow (EPANET's 4-5 digit unit constants) changes that head by the same relative amount
+            for l_ in scn['links']:
+                if l_['type'] == 'pump' and l_.get('kind') == 'POWER':
+                    gain = np.asarray(res_.node['head'][l_['b']].values, dtype=float) - np.asarray(res_.node['head'][l_['a']].values, dtype=float)
+                    idle_rows |= set(int(i) for i in np.where(gain > 300.0)[0])
         if idle_rows:
             bump(c, 'c03.rows_with_idle_running_pump', len(idle_rows))
         # events between report rows are visible in the WNTR run only (all accepted steps): a partial step, or a status change of a
@@ -434,6 +476,35 @@ class C03(Prop):
                     j = int(np.where(sw[first] != se[first])[0][0])
                     viol.append(V('c03.engines.status', 'differs', 'WNTR vs EPANET: status[%s] at t=%d: %r vs %r and no control threshold is crossed around that step' %
                                   (ref.link['status'].columns[j], times[first], sw[first, j], se[first, j])))
+        # a PRV / PSV that WNTR keeps closed over two consecutive report rows although, in WNTR's own reported state, the heads at its ends
+        # satisfy EPANET's rule for leaving the closed state with a metre to spare, while EPANET has it regulating or open
+        if wntr_ok and out.tables is not None and inv.rows(out.tables) == times:
+            # (asked of every world in which both engines ran to the end: a valve that stays closed empties the zone's tank and ends up
+            # with cut-off junctions, which the healthy-world filter would otherwise put aside)
+            elev = dict((n_['id'], n_.get('elev', 0.0)) for n_ in scn['nodes'])
+            commanded = set(a_['link'] for ctl in scn['controls'] for a_ in ctl['then'] + ctl.get('else', []))
+            hw = out.tables.node['head']
+            for l_ in scn['links']:
+                if l_['type'] != 'valve' or l_.get('vtype') not in ('PRV', 'PSV') or l_['id'] in commanded:
+                    continue
+                sw_ = np.asarray(out.tables.link['status'][l_['id']].values, dtype=float)
+                se_ = np.asarray(ref.link['status'][l_['id']].values, dtype=float)
+                hset = float(l_['setting']) + (elev.get(l_['b'], 0.0) if l_['vtype'] == 'PRV' else elev.get(l_['a'], 0.0))
+                run = 0
+                for i_ in range(len(times)):
+                    h1, h2 = float(hw[l_['a']].iloc[i_]), float(hw[l_['b']].iloc[i_])
+                    if l_['vtype'] == 'PRV':
+                        must_leave = (h1 >= hset + 1.0 and h2 <= hset - 1.0) or (h1 <= hset - 1.0 and h1 >= h2 + 1.0)
+                    else:
+                        must_leave = h1 >= hset + 1.0 and h1 >= h2 + 1.0
+                    if h1 == 0.0 or h2 == 0.0:
+                        must_leave = False          # an end node reported as cut off (zeros): no heads to judge by
+                    run = run + 1 if (sw_[i_] == 0 and must_leave) else 0
+                    if run >= 2 and np.any(se_[:i_ + 1] != 0) and not np.any(sw_[:i_ + 1] != 0):
+                        bump(c, 'c03.valve_stuck_closed_rows')
+                        viol.append(V('c03.engines.valve_stuck_closed', l_['vtype'], 'WNTR keeps %s %s closed at t=%d and the row before (its own heads: upstream %.3f, downstream %.3f, set head %.3f) '
+                                      'and has never let it leave the closed state, while EPANET has (status %r now)' % (l_['vtype'], l_['id'], times[i_], h1, h2, hset, se_[i_])))
+                        break
         acted = any(s['status'] != out.rec.steps[0]['status'] for s in out.rec.steps[1:]) if out.rec.steps else False
         rich = any(n['type'] == 'T' for n in scn['nodes']) or any(l['type'] == 'pump' for l in scn['links'])
         return verdict('violation' if viol else 'ok', viol, c, dig, nontrivial=bool(healthy and acted and rich), sim_seconds=sims * nruns, runs=nruns,
